@@ -1,6 +1,8 @@
 import PyamgV.Props.Restate
 import PyamgV.Proofs.C08Accel
 import PyamgV.Proofs.ExtSolvePathEx
+import PyamgV.Proofs.ExtPy2Accel
+import PyamgV.Proofs.ExtPy2Config
 
 /-! # C08 — accelerated and black-box solves reach the requested tolerance honestly
 
@@ -113,5 +115,34 @@ the linear cycles, are the only cycle names that reach an accelerator) -/
 restate precond_cycle_not_amli := PyamgV.SolvePath.plan_cycle_not_amli
 /-- (E17) non-vacuity: `solve(…, cycle='w', accel='cg')` on a concrete two-level hierarchy, evaluated by the kernel -/
 restate example_precond := PyamgV.SolvePath.Ex.example_precond
+
+/-! ## the `accel` branch as the SOURCE has it (extension E42, Proofs/ExtPy2Accel.lean, Proofs/ExtPy2Config.lean)
+
+`Generated.PyLogic2.multilevel_solve` is translated from the working tree's `MultilevelSolver.solve` on every run
+(harness/py2lean2.py; numerical work abstracted: calls of opaque objects are events with all their arguments, answered
+by a script).  `ExtPy2Accel.run T r info nr` runs it on the request `r` of `C08.plan` in the world
+`ExtPy2W.accelWorld T r` (the hierarchy, the matrix' `symmetry`, which module has the requested name, the accelerator's
+calling convention as a script); `ExtPy2Accel.expected` writes the prediction of `C08.plan` as result + trace.  The
+driver runs the generated definition (`ext_py2_call`) against the real method on generated requests. -/
+
+/-- **Generated.solve refines C08.plan**, grid 1: every accelerator name of both tables, an unknown name, the four
+kinds of callables x all 32 combinations of `symmetric_smoothing`, `x0`, `callback`, `residuals`, `return_info`, for ALL
+`tol`, `maxiter`, returned `info` and recomputed residual norm -/
+restate generated_accel_refines_plan_names := PyamgV.ExtPy2Accel.accel_refines_plan_names
+/-- grid 2: every spelling of the cycle (AMLI guards), every `symmetry` attribute, one accelerator per behaviour class -/
+restate generated_accel_refines_plan_cycles := PyamgV.ExtPy2Accel.accel_refines_plan_cycles
+/-- `solver_configuration` (pyamg/blackbox.py) with the symmetry test as an input Boolean: the Hermitian /
+non-symmetric configuration (`symmetry` = what `bbPlan` hands on, Krylov smoother = `bbAccel symmetry`) and the
+near-null-space candidates (BSR block size > 1, user array checks) -/
+restate generated_config_refines_spec := PyamgV.ExtPy2Config.config_refines_spec
+restate generated_config_any_size := PyamgV.ExtPy2Config.config_any_size
+
+/-- non-vacuity: the grids are what they claim (sizes), and `expected` of one SciPy-convention request spelled out:
+first call PyAMG style (raises), residual list reset, signature inspected, second call with `rtol` and without `atol` -/
+example : (ExtPy2Accel.gridNames C08.tables 0 0).length = 800 ∧ (ExtPy2Accel.gridCycles 0 0).length = 1920 ∧
+    ExtPy2Config.grid.length = 648 := by decide +kernel
+example : (ExtPy2Accel.expected C08.tables
+      { cycle := "w", symmetry := none, symSmoothing := true, accel := .name "minres", tol := 1/8, maxiter := 3, x0 := false,
+        callback := false, residuals := true, returnInfo := true } 2 (1/2)).2.length = 11 := by decide +kernel
 
 end PyamgV.Props.C08
